@@ -352,3 +352,16 @@ theorem C04_tls_stack_has_source (fr : Framing.St) (cond : Nat) (s : Btls.St) (h
 
 end XcmModel.C04stack
 
+
+/-! non-vacuity of the composed statement: a concrete reachable xpoll state, a buffered message, the registration btcp makes -/
+namespace XcmModel.C04stack
+open XcmModel XcmModel.Xpoll
+
+example :
+    let fr : Framing.St := { sbuf := [0, 0, 0, 1, 7] }
+    let x : X := (fdRegAdd {} 5 4).1
+    C16.Reach x ∧ fr.sbuf ≠ [] ∧ x.slots[0]? = some (some (5, 4)) ∧ (5 : Nat) ≠ ACTIVE ∧
+    Btcp.connUpdate .ready (Framing.lowerCondition fr 0) false = (false, some 4) := by
+  refine ⟨C16.Reach.fdAdd 5 4 C16.Reach.init (by decide) (by decide), by decide, by decide, by decide, by decide⟩
+
+end XcmModel.C04stack
